@@ -45,13 +45,23 @@ import (
 // legitimate families on the unchanged tree (printed again by every run in the
 // evidence under "ratios" and "constants"). At n = 65 507 those are, per input
 // octet: deep size 52 (thousands of empty 4RD options), decode 88 and decode +
-// re-encode 174 (DHCPv4 option 119 made of root names) — so K = 1024 leaves
-// 19x / 11x / 5.9x on the linear terms — and, per depth·n, decode 0.54 (IA
+// re-encode 174 (DHCPv4 option 119 made of root names) — so Ks = 512, Kd = Ka =
+// 1024 leave 9.8x / 11x / 5.9x on the linear terms — and, per depth·n, decode 0.54 (IA
 // options nested 4093..8187 deep) up to 0.98 (the same with a long innermost
 // tail: every level copies nearly the whole input, which is exactly the
 // statement's "one copy per level") and decode + re-encode 1.62 up to 2.86
 // against Cq = 4. The name-decoding blow-up this check exists for is 34 000·n at
 // 1 kB and 2.2·10^6·n at 8 kB; the verdicts do not depend on the exact values.
+//
+// Ks is 512, not 1024: the deep size is computed by this package from logical
+// sizes (capacity x element size), so it carries no allocator noise, and its
+// worst legitimate values are 52·n on the hand-written families and 136·n for a
+// fan of 2-octet pointers to a 253-character name (hand-written and periodic
+// alike) — the latter is a hard ceiling of the wire format (2 octets cannot
+// expand to more than one 255-octet name), so 512 leaves 3.7x on it and 9.8x on
+// everything else, and a retention defect of n^2/42 (a sub-slice of every
+// level's transient copy kept alive) shows at 32 k instead of beyond the
+// maximum datagram.
 const (
 	Ks    = 512      // deepSize     <= Ks*n + C
 	Kd    = 1024     // allocDec     <= Kd*n + CqDec*depth*n + C
